@@ -257,7 +257,7 @@ func (r *Run) finish(outDir string, findings []Finding, seed int, wall float64, 
 		"distinct_nontrivial": len(r.nontriv),
 		"rule": "one obligation per (rule, construct) resolved in the type-checked go/ssa program of /repo; distinct = distinct rule|construct keys; " +
 			"non-trivial = the rule inspected at least one CFG path, dataflow chain, field set or call site for it (anchor-resolution failures are excluded)",
-		"explanation":         r.Explain,
+		"explanation":         r.Explain + " — Rules evaluated in this run: " + ruleIndex(r.RuleDocs) + ".",
 		"samples":             samples,
 		"rules":               rules,
 		"counters":            r.Counters,
@@ -285,4 +285,27 @@ func (r *Run) finish(outDir string, findings []Finding, seed int, wall float64, 
 		return 1
 	}
 	return 0
+}
+
+// ruleIndex lists the rules of a run ("R1 doc; R2 doc; …") in rule order; the hand-written
+// explanation of a property names the clauses, this index is always complete.
+func ruleIndex(docs map[string]string) string {
+	ids := make([]string, 0, len(docs))
+	for id := range docs {
+		ids = append(ids, id)
+	}
+	sort.Slice(ids, func(i, j int) bool {
+		ni, nj := 0, 0
+		fmt.Sscanf(strings.TrimPrefix(ids[i], "R"), "%d", &ni)
+		fmt.Sscanf(strings.TrimPrefix(ids[j], "R"), "%d", &nj)
+		if ni != nj {
+			return ni < nj
+		}
+		return ids[i] < ids[j]
+	})
+	var parts []string
+	for _, id := range ids {
+		parts = append(parts, id+" "+docs[id])
+	}
+	return strings.Join(parts, "; ")
 }
